@@ -409,10 +409,7 @@ func runE2E(c e2eCase) string {
 			return "r=readerr"
 		}
 		mkOpts := func() options.FixVulnsOptions {
-			cfg := upgrade.NewConfig()
-			for k, v := range c.Levels {
-				cfg.Set(k, upgrade.Level(v))
-			}
+			cfg := remx.ConfigFor(c.line(), c.Levels)
 			return options.FixVulnsOptions{
 				Manifest: path, MaxUpgrades: c.MaxUpgrades, NoIntroduce: c.NoIntroduce, MatcherClient: remx.Matcher(osvs), ResolveClient: cl,
 				DefaultRepository: "http://127.0.0.1:1/",
